@@ -296,4 +296,8 @@ def run(ctx: Ctx, repo: Repo, tier: str) -> None:
     ctx.attempt(compat_predicates, ctx, repo, "R-C04.7", ("types_equal", "is_typed_dict", "is_any"))
     if concrete_err is not None:
         raise concrete_err
+    # "per-value inference followed by merging": the types of ALL traces of a function reach the merge (none skipped because
+    # the type object happens to be false as a truth value, or for any other reason) - R-C14.1a
+    from . import c14 as _c14
+    ctx.attempt(_c14.rule_traces_to_sets, ctx, repo)
     ctx.settle()
